@@ -85,6 +85,19 @@ package isaacdatabase
 //@   hof Iter#0 loop invariant m != nil ==> exists([]byte(x), enchint == fst(ReadOneHeaderFrame(x)) && meta == snd(ReadOneHeaderFrame(x)) && body == third(ReadOneHeaderFrame(x)))
 //@   ensures [one-record] r4 == nil && r0 != nil ==> exists([]byte(x), r1 == fst(ReadOneHeaderFrame(x)) && r2 == snd(ReadOneHeaderFrame(x)) && r3 == third(ReadOneHeaderFrame(x)))
 
+// what a merge leaves in the caches of the open database is what a reopened
+// database loads: when the new block map is accepted, the last suffrage proof
+// (object, header, body) is replaced whenever the block carries one, and the
+// network policy whenever it carries one -- independently of each other
+//@ func (*basePermanent).updateLast$1
+//@   prop C20
+//@   requires db != nil && db.lenc != nil && db.proof != nil && db.policy != nil && mp != nil && mp.Manifest() != nil
+//@   requires isempty || (typeis(i[0], base.BlockMap) && cast(i[0], base.BlockMap).Manifest() != nil)
+//@   ensures [proof-kept] r1 == nil && old(proof) != nil ==> db.proof.value[0] == old(proof) && unbox(db.proof.value[1], []byte) == old(proofmeta) && unbox(db.proof.value[2], []byte) == old(proofbody)
+//@   ensures [policy-kept] r1 == nil && old(policy) != nil ==> db.policy.value == old(policy)
+//@   ensures [map-kept] r1 == nil ==> r0[0] == old(mp) && unbox(r0[1], []byte) == old(mpmeta) && unbox(r0[2], []byte) == old(mpbody)
+//@   ensures [newer-only] r1 == nil && !isempty ==> old(mp).Manifest().Height() > cast(i[0], base.BlockMap).Manifest().Height()
+
 // ---- C19: reads are routed to the right store --------------------------------------------
 //
 // (A9) the temporary databases are interface values: Height, SuffrageHeight and
